@@ -117,7 +117,11 @@ def check_fanin(rep, rule, c, what, target, term_text, env, L, bus_cond=None, te
         return False
     a = acc_of(c, d.value)
     if a is None:
-        rep.bad(rule, site, what, f"value {c.show(d.value)} is not a plain OR-reduction over the subordinates", line=d.lineno)
+        v = c.norm(d.value)
+        if any(isinstance(n, tuple) and n and n[0] in ('call', 'gen', 'opaque') for n in ir.walk(v)):
+            rep.unk(rule, site, what, f"value {c.show(d.value)} is computed by a call the analysis does not model")
+        else:
+            rep.bad(rule, site, what, f"value {c.show(d.value)} is not a plain OR-reduction over the subordinates", line=d.lineno)
         return False
     if c.norm(a.init) != ('const', 0) or a.op != '|':
         rep.bad(rule, site, what, f"OR-reduction starts from {c.show(a.init)} (must be 0)")
@@ -154,7 +158,8 @@ def registry_and_window(rep, rule, idx, fi, forwarded):
     calls = [(n, cl) for n in g.nodes for cl in fg.calls_in(n.id)
              if isinstance(cl.func, _ast.Attribute) and cl.func.attr == "add_window"]
     if len(stores) != 1 or len(calls) != 1:
-        rep.bad(rule, site, "registry store and add_window call", f"found {len(stores)} registry store(s) and {len(calls)} add_window call(s)")
+        rep.form(False, rule, site, "registry store and add_window call", f"found {len(stores)} registry store(s) and {len(calls)} add_window call(s)",
+                 wrong="the subordinate's map is never added as a window" if not calls else None)
         return
     st = stores[0].ast
     from .common import get_fn
@@ -241,6 +246,10 @@ def _modR(e, R, M):
                 return _modR(rest[0], R, M)
             return {('nary', '&', tuple(rest)): 1}
         return {e: 1}
+    if e[0] == 'nary' and e[1] == '*':
+        if any(o == R for o in e[2]):
+            return {}                                   # any multiple of R
+        return {e: 1}
     if e[0] == 'nary' and e[1] == '|':
         parts = [_modR(o, R, M) for o in e[2]]
         if any(p is None for p in parts):
@@ -268,28 +277,37 @@ def shadow_hash(rep, idx, rule):
         rep.unk(rule, dec.fi.site, "shadow hash", "decode_address / encode_offset do not have a single return")
         return
     d, e = d[0], e[0]
-    uses_R_d = ir.mentions(d, R)
-    uses_R_e = ir.mentions(e, R)
-    rep.check(uses_R_d and uses_R_e, rule, enc.fi.site,
-              "decode_address and encode_offset use the same power-of-two register size 2**ceil_log2(stop - start)",
-              f"decode uses it: {uses_R_d}; encode uses it: {uses_R_e} -- encode returns {ir.show(e)[:120]}")
+    uses_R_d = ir.mentions(d, R) or ir.mentions(d, M)
+    uses_R_e = ir.mentions(e, R) or ir.mentions(e, M)
+    wrong_mod = [x for x in ir.walk(e) if x[0] == 'bin' and x[1] == '%' and x[3] != R] + \
+                [x for x in ir.walk(d) if x[0] == 'bin' and x[1] == '%' and x[3] != R and x[3] != dec.parse("self.size")]
+    rep.form(uses_R_d and uses_R_e, rule, enc.fi.site,
+             "decode_address and encode_offset use the same power-of-two register size 2**ceil_log2(stop - start)",
+             f"decode uses it: {uses_R_d}; encode uses it: {uses_R_e}",
+             wrong=(f"a different modulus is used: {ir.show(wrong_mod[0][3])[:60]}" if wrong_mod else None))
+    plain = {None, ('name', 'addr'), ('name', 'offset'), dec.parse("reg_range.start"), dec.parse("reg_range.stop")}
+
+    def reduced(m):
+        """Fully reduced: only the parameters and the range ends are left (then a difference is a real difference)."""
+        return m is not None and all(k in plain for k in m)
     md = _modR(d, R, M)
-    if md is None:
-        rep.unk(rule, dec.fi.site, "decode_address(addr) == addr (mod register size)", f"cannot reduce {ir.show(d)[:120]}")
-    else:
-        rep.check(md == {('name', 'addr'): 1}, rule, dec.fi.site, "decode_address(addr) == addr (mod register size)",
-                  f"modulo the register size the offset reduces to {_lin_show(md)}; the low bits of the chunk offset must be the low bits of the bus address")
+    rep.form(md == {('name', 'addr'): 1}, rule, dec.fi.site, "decode_address(addr) == addr (mod register size)",
+             f"returns {ir.show(d)[:120]}",
+             wrong=(f"modulo the register size the offset reduces to {_lin_show(md)}; the low bits of the chunk offset must be the low bits "
+                    "of the bus address") if reduced(md) else None)
     me = _modR(e, R, M)
-    if me is None:
-        rep.unk(rule, enc.fi.site, "encode_offset(o) == o (mod register size)", f"cannot reduce {ir.show(e)[:120]}")
-    else:
-        rep.check(me == {('name', 'offset'): 1}, rule, enc.fi.site, "encode_offset(o) == o (mod register size)",
-                  f"modulo the register size the address reduces to {_lin_show(me)}: some chunk of the register is given an address that "
-                  "decode_address does not map back to it")
-    # encode lands inside [start, start + R): start + (<anything> % R)
+    rep.form(me == {('name', 'offset'): 1}, rule, enc.fi.site, "encode_offset(o) == o (mod register size)",
+             f"returns {ir.show(e)[:120]}",
+             wrong=(f"modulo the register size the address reduces to {_lin_show(me)}: some chunk of the register is given an address that "
+                    "decode_address does not map back to it") if reduced(me) else None)
+    # encode lands inside [start, start + R): start + (<anything> % R)  or  start + (<anything> & (R - 1))
+    def wraps(t):
+        return (t[0] == 'bin' and t[1] == '%' and t[3] == R) or (t[0] == 'nary' and t[1] == '&' and M in t[2])
     shape = e[0] == 'lin' and e[1] == 0 and len(e[2]) == 2 and any(t == enc.parse("reg_range.start") and k == 1 for t, k in e[2]) and \
-        any(t[0] == 'bin' and t[1] == '%' and t[3] == R and k == 1 for t, k in e[2])
-    rep.check(shape, rule, enc.fi.site, "encode_offset(o) lies in [start, start + register size)", f"returns {ir.show(e)[:120]}")
+        any(wraps(t) and k == 1 for t, k in e[2])
+    other_mod = any(x[0] == 'bin' and x[1] == '%' and x[3] != R for x in ir.walk(e))
+    rep.form(shape, rule, enc.fi.site, "encode_offset(o) lies in [start, start + register size)", f"returns {ir.show(e)[:120]}",
+             wrong="the offset is wrapped with a modulus other than the power-of-two register size" if other_mod else None)
 
 
 def _lin_show(d):
